@@ -407,3 +407,90 @@ Proof.
   destruct (step_with leader self agg (verify leader) st e) as [st1 o1].
   rewrite IH. reflexivity.
 Qed.
+
+(* ------------------------------------------------------------------------------------------ *)
+(* Leader rotation that changes during the run (membership growing, rotations that depend on  *)
+(* the replica's state): every handler invocation comes with the rotation as it answers at    *)
+(* that moment.  All statements carry over; "the designated leader" is the leader according   *)
+(* to the rotation consulted by the invocation that signed.                                   *)
+
+Section Varying.
+  Variable self : rid.
+  Variable agg : bool.
+
+  Definition lev := ((view -> rid) * event)%type.
+
+  Fixpoint run_var (st : vstate) (l : list lev) : vstate * list sig :=
+    match l with
+    | [] => (st, [])
+    | (ld, e) :: r =>
+        let '(st1, o1) := step ld self agg st e in
+        let '(st2, o2) := run_var st1 r in
+        (st2, o1 ++ o2)
+    end.
+
+  Definition offered_var (l : list lev) (p : proposal) : Prop :=
+    exists ld e, In (ld, e) l /\ wf_vote ld p /\
+      (ext_of e = Some p \/
+       exists o, own_of e = Some o /\ p = mk_own self (p_view p) o /\ ld (p_view p) = self).
+
+  Lemma run_var_ok : forall l st st' out,
+    run_var st l = (st', out) ->
+    chain (last_voted st) out /\ bound (last_voted st) out = last_voted st' /\
+    forall p, In (SignVote p) out -> offered_var l p.
+  Proof.
+    induction l as [|[ld e] l IH]; intros st st' out H; cbn in H.
+    - inversion H; subst; cbn. split; [exact I|split; [reflexivity|intros p []]].
+    - destruct (step ld self agg st e) as [st1 o1] eqn:E1.
+      destruct (run_var st1 l) as [st2 o2] eqn:E2.
+      inversion H; subst; clear H.
+      apply step_ok in E1. apply IH in E2.
+      destruct E1 as [Hc1 [Hb1 Hv1]]. destruct E2 as [Hc2 [Hb2 Hv2]].
+      rewrite chain_app, bound_app, Hb1.
+      split; [split; assumption|split; [exact Hb2|]].
+      intros p Hin. apply in_app_or in Hin. destruct Hin as [Hin|Hin].
+      + apply Hv1 in Hin. destruct Hin as [Hwf Hsrc].
+        exists ld, e. split; [left; reflexivity|]. split; [exact Hwf|exact Hsrc].
+      + apply Hv2 in Hin. destruct Hin as [ld' [e' [Hi Hr]]].
+        exists ld', e'. split; [right; exact Hi|exact Hr].
+  Qed.
+
+  Theorem vote_wellformed_var : forall st l st' out p,
+    run_var st l = (st', out) -> In (SignVote p) out -> offered_var l p.
+  Proof. intros st l st' out p H Hin. apply run_var_ok in H. apply H; exact Hin. Qed.
+
+  Theorem votes_increasing_var : forall st l st' out,
+    run_var st l = (st', out) ->
+    StronglySorted N.lt (vote_views out) /\ NoDup (vote_views out) /\
+    Forall (fun v => last_voted st < v) (vote_views out).
+  Proof.
+    intros st l st' out H. apply run_var_ok in H. destruct H as [Hc _].
+    destruct (chain_votes_sorted _ _ Hc) as [Hs Ha].
+    split; [exact Hs|split; [apply StronglySorted_lt_NoDup; exact Hs|exact Ha]].
+  Qed.
+
+  Theorem no_vote_after_signing_var : forall st l st' out l1 x l2 p,
+    run_var st l = (st', out) -> out = l1 ++ x :: l2 -> In (SignVote p) l2 ->
+    sig_view x < p_view p.
+  Proof.
+    intros st l st' out l1 x l2 p H -> Hin. apply run_var_ok in H. destruct H as [Hc _].
+    eapply chain_later_vote; eauto.
+  Qed.
+
+  Theorem last_voted_dominates_var : forall st l st' out,
+    run_var st l = (st', out) ->
+    last_voted st <= last_voted st' /\ forall s, In s out -> sig_view s <= last_voted st'.
+  Proof.
+    intros st l st' out H. apply run_var_ok in H. destruct H as [Hc [Hb _]].
+    rewrite <- Hb. split; [apply bound_ge; exact Hc|intros s Hs; eapply bound_ge_item; eauto].
+  Qed.
+
+  Lemma run_var_const : forall leader es st,
+    run_var st (map (fun e => (leader, e)) es) = run leader self agg st es.
+  Proof.
+    intros leader es. induction es as [|e es IH]; intros st; [reflexivity|].
+    cbn [map run_var]. unfold run in *. cbn [run_with].
+    unfold step. destruct (step_with leader self agg (verify leader) st e) as [st1 o1].
+    rewrite IH. reflexivity.
+  Qed.
+End Varying.
